@@ -50,7 +50,7 @@ func runWindow(seed uint64, cas int, tier string, prop string) *WindowRes {
 		{"RENAME d1/a -> d2/n (free name)", func(w map[string][]byte) *Op { return &Op{K: OpRename, H: w["d1"], Name: "a", H2: w["d2"], Name2: "n"} }},
 		{"RENAME d2/low -> d1/low (directory to a free name)", func(w map[string][]byte) *Op { return &Op{K: OpRename, H: w["d2"], Name: "low", H2: w["d1"], Name2: "low"} }},
 	}
-	nscripts := 12
+	nscripts := 13
 	idx := 0
 	for ai := range aops {
 		for sc := 0; sc < nscripts; sc++ {
@@ -151,6 +151,8 @@ func oneWindow(seed uint64, aname string, aop func(map[string][]byte) *Op, scrip
 		B = []*Op{{K: OpCreate, H: d2, Name: "n"}, {K: OpMkdir, H: d1, Name: "low"}}
 	case 11: // the free target name is taken and released again, the source is replaced
 		B = []*Op{{K: OpCreate, H: d2, Name: "n"}, {K: OpRemove, H: d2, Name: "n"}, {K: OpRemove, H: d1, Name: "a"}, {K: OpCreate, H: d1, Name: "a"}}
+	case 12: // the target directory is removed and its number handed out again
+		B = []*Op{{K: OpRemove, H: d2, Name: "b"}, {K: OpRmdir, H: d2, Name: "low"}, {K: OpRmdir, H: root, Name: "d2"}, {K: OpMkdir, H: root, Name: "e2"}, {K: OpMkdir, H: root, Name: "e3"}, {K: OpMkdir, H: root, Name: "e4"}}
 	case 8: // the sub-directory is replaced
 		B = []*Op{{K: OpRmdir, H: d2, Name: "low"}, {K: OpMkdir, H: d2, Name: "low"}}
 	}
